@@ -1,6 +1,9 @@
 #!/bin/sh
-# validates MANIFEST.json and every evidence file against the schemas
-python3-vt - <<'PY'
+# validates the check fragments (they must import), MANIFEST.json and every evidence file against the schemas
+cd /verif
+./check list > /dev/null || { echo "FRAGMENTS BROKEN"; exit 1; }
+python3 gen_manifest.py > /dev/null || { echo "MANIFEST GENERATION FAILED"; exit 1; }
+python3-vt - <<'PY' || exit 1
 import json,jsonschema,glob
 jsonschema.validate(json.load(open('/verif/MANIFEST.json')),json.load(open('/root/.vp/MANIFEST.schema.json')))
 s=json.load(open('/root/.vp/EVIDENCE.schema.json'))
@@ -9,4 +12,3 @@ for f in sorted(glob.glob('/verif/evidence/*.json')):
     print('ok',f)
 print('manifest ok')
 PY
-./check list > /dev/null || exit 1
